@@ -421,10 +421,15 @@ func DriverMain(propID, tier string, seed uint64, replayPath string) int {
 			raceBlocks += n
 			if n > 0 {
 				blk := string(txt)
+				inLib := strings.Contains(blk, "/repo/") || strings.Contains(blk, "pault.ag/go/debian")
 				if len(blk) > 3000 {
 					blk = blk[:3000]
 				}
-				d.findings = append(d.findings, Finding{Kind: "race-report", Input: []byte(filepath.Base(m)), Msg: fmt.Sprintf("%d DATA RACE block(s):\n%s", n, blk)})
+				if inLib {
+					d.findings = append(d.findings, Finding{Kind: "race-report", Input: []byte(filepath.Base(m)), Msg: fmt.Sprintf("%d DATA RACE block(s) with library frames:\n%s", n, blk)})
+				} else {
+					d.inconcl = append(d.inconcl, fmt.Sprintf("race detector reported %d block(s) without library frames (harness race?): %s", n, blk[:min(len(blk), 600)]))
+				}
 			}
 		}
 	}
@@ -552,4 +557,11 @@ func diedMsg(cpu bool, out string) string {
 		return "process killed at the CPU budget (did not return) — " + out
 	}
 	return "process died while executing this case (fatal error / os.Exit inside the library): " + out
+}
+
+func min(a, b int) int {
+	if a < b {
+		return a
+	}
+	return b
 }
